@@ -92,6 +92,10 @@ class Gen:
         if r.random() < 0.3:
             # members exposed through getters (pointers by value, the rest by const reference); serialize-only
             fields = [('m%d' % i, self.ty(depth + 1)) for i in range(r.randrange(1, 4))]
+            if r.random() < 0.6:
+                # a getter returning a raw pointer (encoded as an optional): its size is not sizeof(pointer)
+                fields[r.randrange(len(fields))] = (fields[0][0] if len(fields) == 1 else 'm%d' % r.randrange(len(fields)), ('O', 'raw', r.choice([('A', r.choice('bsilBSIL')), ('Q', 'string', ('A', 'c'), None)])))
+                fields = [('m%d' % i, t) for i, (_, t) in enumerate(fields)]
             body = ' '.join('%s %s_{};' % (self.cpp(t), f) for f, t in fields)
             getters = ' '.join(('%s %s() const { return %s_; }' if (t[0] in ('A', 'PE', 'E') or (t[0] == 'O' and t[1] == 'raw')) else 'const %s& %s() const { return %s_; }') % (self.cpp(t), f, f) for f, t in fields)
             self.defs.append('struct %s { %s %s };' % (name, body, getters))
